@@ -4,13 +4,20 @@ C11-Fn documents the same root cause as C08-Fn (the C08 reference model's deviat
 that number attributes a failing relation to it); C11-F28.. are C11's own."""
 import json, os
 ROOT = "/verif"
-c08 = {e["id"]: e for e in json.load(open(f"{ROOT}/known_findings.d/C08.json"))["findings"]}
+c08 = {e["id"]: e for e in json.load(open(f"{ROOT}/known_findings.d/C08.json"))["findings"] + [x for x in json.load(open(f"{ROOT}/known_findings.json"))["findings"] if x["id"].startswith("C08-")]}
 F = []
+# repaired in /repo: recorded as `fixed` in /verif/known_findings.json by the integrator; the
+# witness file is kept, the staging entry (and with it the deviation rule) is dropped
+FIXED = {"C11-F8": "e05eb43"}
 def f(id, what, where, witness, sigs=()):
     F.append({"property": "C11", "id": id, "status": "open", "what": what, "where": where,
               "witness": f"findings/{id}.json", "match": {"rule": id, "signatures": list(sigs)}})
     w = {"id": id, "property": "C11", "what": what, "where": where}
     w.update(witness)
+    if id in FIXED:
+        F.pop()
+        w["status"] = "fixed"
+        w["fixed_in"] = FIXED[id]
     json.dump(w, open(f"{ROOT}/findings/{id}.json", "w"), indent=1)
 
 def same(n, relation, witness):
